@@ -144,9 +144,8 @@ Definition translate_columns (datecol : str) (ids : list Q) (times dates : list 
   end.
 
 (* ---- the same computation in binary64 (what the code really does) --------------------------------------------
-   fl = round to nearest even.  float(h) + float(m)/60; the split of the hours of the day into hour / minute / second /
-   microsecond / nanosecond by repeated truncation (NOT rounding); Timestamps as integer nanoseconds; the difference
-   converted to float, divided by 1e9 and by 3600. *)
+   fl = round to nearest even.  float(h) + float(m)/60; the hours of the day rounded once to whole nanoseconds;
+   Timestamps as integer nanoseconds; the difference converted to float, divided by 1e9 and by 3600. *)
 Definition fl (x : Q) : Q := round_double x.
 Definition qtrunc (x : Q) : Z := Z.quot (Qnum x) (Zpos (Qden x)).
 
@@ -161,18 +160,10 @@ Definition time_value_f (t : str) : res Q :=
     end
   else match pyfloat t with Some a => Ok (fl a) | None => Err ValueErr end.
 
-(* nanoseconds since midnight of a time of day given in (float) hours *)
+(* nanoseconds since midnight of a time of day given in (float) hours (fix a9224f5): ONE rounding,
+   round(timeval * 3600e9) — Python's round of a float is round-half-even — and integer divmod afterwards *)
 Definition ns_of_hours (tv : Q) : Z :=
-  let h := qtrunc tv in
-  let x1 := fl (fl (tv - inject_Z h) * 60)%Q in
-  let mi := qtrunc x1 in
-  let x2 := fl (fl (x1 - inject_Z mi) * 60)%Q in
-  let s := qtrunc x2 in
-  let x3 := fl (fl (x2 - inject_Z s) * 1000000)%Q in
-  let us := qtrunc x3 in
-  let x4 := fl (fl (x3 - inject_Z us) * 1000)%Q in
-  let n := qtrunc x4 in
-  (((h * 60 + mi) * 60 + s) * 1000000000 + us * 1000 + n)%Z.
+  let x := fl (tv * 3600000000000)%Q in round_half_even (Qnum x) (Qden x).
 
 Inductive fval :=
 | FNum (hours : Q)                 (* day-number date: fl (tv + fl (fl date * 24)) *)
@@ -225,8 +216,8 @@ Definition translate_columns_f (datecol : str) (ids : list Q) (times dates : lis
       else Err OtherErr
   end.
 
-(* the split by truncation loses nothing for this time of day: ns_of_hours tv = tv * 3600e9 exactly *)
-Definition split_exact (tv : Q) : bool := Qeq_bool (inject_Z (ns_of_hours tv)) (tv * 3600000000000).
+(* float(h) + float(m)/60 for a clock time h:m *)
+Definition clock_hours (h m : nat) : Q := fl (fl (inject_Z (Z.of_nat h)) + fl (fl (inject_Z (Z.of_nat m)) / 60))%Q.
 
 (* ---- translate_nmtran_time: the TIME column of the resulting dataset ----------------------------------------
    datecol = None: no DATE/DAT1/DAT2/DAT3 column.  The TIME column then has datatype float64 in the datainfo (it
@@ -294,7 +285,7 @@ Record tcase := mkT {
 
 (* tag 31: the binary64 model against the code, EXACT equality of the doubles; tag 36: the exact-rational model
    within 1e-9 h; tag 34: the calendar specification within 1e-9 h (gross errors); tag 35: the result is not within
-   4 ulp of the calendar difference (the truncating split, C13-TIME-SPLIT-TRUNCATION) *)
+   4 ulp of the calendar difference (was the truncating split, C13-TIME-SPLIT-TRUNCATION, fixed by a9224f5: no guard) *)
 Definition near (q d : Q) : bool := Qle_bool (Qabs (q - d)) (1 # 1000000000).
 Definition near_ulp (q d : Q) : bool :=
   Qeq_bool q d || Qle_bool (Qabs (q - d)) (Qabs (fl q) * (4 # 4503599627370496)).
@@ -327,9 +318,6 @@ Definition g_no_daynum (c : tcase) : bool :=
   | Some _ => forallb (fun d => negb ((match d with x :: _ => N.eqb x c_minus | [] => false end) ||
                                       Nat.eqb (length (split_by (fun x => negb (is_digit x)) d)) 1)) (t_dates c)
   end.
-(* every clock time of the case splits exactly *)
-Definition g_split_exact (c : tcase) : bool :=
-  forallb (fun t => match time_value_f t with Ok tv => split_exact tv | Err _ => true end) (t_times c).
 Definition time_verdict (c : tcase) : list nat :=
   let o := t_obs c in
   (if tres_agree_by Qeq_bool (translate_model (t_datecol c) (t_ids c) (t_times c) (t_dates c)) o then [] else [31]) ++
@@ -337,5 +325,4 @@ Definition time_verdict (c : tcase) : list nat :=
   (if tres_agree (spec_translate (t_datecol c) (t_ids c) (t_times c) (t_dates c)) o then [] else [34]) ++
   (if tres_agree_by near_ulp (spec_translate (t_datecol c) (t_ids c) (t_times c) (t_dates c)) o ||
       negb (tres_agree (spec_translate (t_datecol c) (t_ids c) (t_times c) (t_dates c)) o) then [] else [35]) ++
-  (if g_three_parts c then [] else [221]) ++ (if g_has_date c then [] else [222]) ++ (if g_no_daynum c then [] else [223]) ++
-  (if g_split_exact c then [] else [225]).
+  (if g_three_parts c then [] else [221]) ++ (if g_has_date c then [] else [222]) ++ (if g_no_daynum c then [] else [223]).
